@@ -207,7 +207,7 @@ adv = threading.local()
 def lendet(w, n):
     w.align()
     a = getattr(adv, 'cur', None)
-    if a is not None and a.here(True):
+    if a is not None and a.mode != 'bigint' and a.here(True):
         if a.mode == 'frag': w.bytes_([a.marker] * a.k + [n if n < 128 else 0])
         elif a.mode == 'max': w.bytes_([0xBF, 0xFF])
         else: w.bytes_([0x7F])
@@ -217,17 +217,40 @@ def lendet(w, n):
     else: raise Frag()
 
 
+def bigint_site(w):
+    """mode 'bigint' of Adv: the site-th length-prefixed INTEGER is written with a.k content octets (a consistent encoding
+    of a huge or non-minimally encoded number: the enclosing lengths are right); returns True when it wrote it"""
+    a = getattr(adv, 'cur', None)
+    if a is None or a.mode != 'bigint': return False
+    adv.kind = 'int'
+    try: hit = a.here(True)
+    finally: adv.kind = 'len'
+    if not hit: return False
+    w.align(); w.put(a.k, 8)
+    w.bytes_([(a.marker + 37 * i) & 0xff for i in range(a.k)])
+    return True
+
+
 def unconstrained(w, v):
+    if bigint_site(w): return
     k = octs_signed(v); lendet(w, k); w.put(v % (1 << (8 * k)), 8 * k)
 
 
 def semi(w, n):
+    if bigint_site(w): return
     k = octs_unsigned(n); lendet(w, k); w.put(n, 8 * k)
 
 
 def enc_int(w, lb, ub, ext, v):
     inroot = (lb is None or v >= lb) and (ub is None or v <= ub)
     if ext:
+        a = getattr(adv, 'cur', None)
+        if a is not None and a.mode == 'bigint':
+            # an extensible INTEGER sent as an extension value in a.k content octets
+            mark = len(w.b)
+            w.put(1, 1)
+            if bigint_site(w): return
+            del w.b[mark:]
         w.put(0 if inroot else 1, 1)
         if not inroot: unconstrained(w, v); return
     elif not inroot: raise Refuse('int range')
@@ -240,7 +263,7 @@ def enc_len(w, lb, ub, n):
     if ub is not None and ub < 65536:
         if lb != ub:
             a = getattr(adv, 'cur', None)
-            if a is not None and a.here(): n = ub           # claim the maximum
+            if a is not None and a.mode != 'bigint' and a.here(): n = ub           # claim the maximum
             cwn(w, ub - lb + 1, n - lb)
     else: lendet(w, n)
 
